@@ -14,7 +14,7 @@ pub fn property() -> Property {
     Property {
         id: "C11",
         level: "exploration",
-        rule: "(1) hosts = ALL strings of 1..3 labels over {a,b,ab,ba,xa} + IPv4/bracketed IPv6 literals + mixed-case spellings; no-proxy lists = ALL lists of <= 2 entries over {'', a, .a, b.a, A, ' a ', a., xa, an IPv4 literal, a bracketed IPv6 literal}; x scheme x {both proxies, http only, disabled flag}: exhaustive, once through ProxySettingsBuilder (entries verbatim) and once through the NO_PROXY environment variable (entries normalised as the statement says). (2) environment: assignments of the 8 variables {http,https,all,no}_proxy x lower/upper case over 7 values each {unset, empty, blank, valid http URL, valid https URL, socks5 URL, garbage} - all 7^8 in thorough, 20 000 sampled in quick; each shard process owns its environment. (3) end-to-end send() through hook H1: the address dialled agrees with the decision. Oracle: reference decision function and environment reader written from the statement, returning the SET of acceptable outcomes (singleton except in documented gray cases). Non-trivial: a proxy is configured for the scheme; distinct = hash(configuration, host).",
+        rule: "(1) hosts = ALL strings of 1..3 labels over {a,b,ab,ba,xa} + IPv4/bracketed IPv6 literals + mixed-case spellings; no-proxy lists = ALL lists of <= 2 entries over {'', a, .a, b.a, A, ' a ', a., xa, an IPv4 literal, a bracketed IPv6 literal, ' .b'}; x scheme x {both proxies, http only, disabled flag}: exhaustive, once through ProxySettingsBuilder (entries verbatim) and once through the NO_PROXY environment variable (entries normalised as the statement says). (2) environment: assignments of the 8 variables {http,https,all,no}_proxy x lower/upper case over 7 values each {unset, empty, blank, valid http URL, valid https URL, socks5 URL, garbage} - all 7^8 in thorough, 20 000 sampled in quick; each shard process owns its environment. (3) end-to-end send() through hook H1: the address dialled agrees with the decision. Oracle: reference decision function and environment reader written from the statement, returning the SET of acceptable outcomes (singleton except in documented gray cases). Non-trivial: a proxy is configured for the scheme; distinct = hash(configuration, host).",
         assumptions: &["gray (executed, not judged): builder entries with blanks / leading or trailing dots / wildcards, sub-'domains' of IP literals, a blank or invalid lower-case variable next to a valid upper-case one, padded or listed '*' in NO_PROXY"],
         min_nontrivial: |t| t.pick(20_000, 200_000),
         gens,
@@ -24,7 +24,7 @@ pub fn property() -> Property {
 }
 
 const LABELS: [&str; 5] = ["a", "b", "ab", "ba", "xa"];
-const ENTRIES: [&str; 10] = ["", "a", ".a", "b.a", "A", " a ", "a.", "xa", "192.0.2.7", "[::1]"];
+const ENTRIES: [&str; 11] = ["", "a", ".a", "b.a", "A", " a ", "a.", "xa", "192.0.2.7", "[::1]", " .b"];
 
 fn hosts() -> Vec<String> {
     let mut v = Vec::new();
@@ -220,7 +220,7 @@ fn noproxy_value(k: u64) -> Option<String> {
         2 => Some(" ".to_owned()),
         3 => Some("*".to_owned()),
         4 => Some("a.test".to_owned()),
-        5 => Some(".a.test, B.test ".to_owned()),
+        5 => Some(".a.test,  .B.test ".to_owned()),
         _ => Some("zzz.test,,".to_owned()),
     }
 }
